@@ -46,3 +46,10 @@ impl Stepped {
         }
     }
 }
+
+/// Encodes, for the yield point after a counter increment: (number of handles << 1) | (1 if some handle in
+/// the rotation is currently marked unavailable).
+pub(crate) fn rotation_state(a: &Accept) -> usize {
+    let any_false = a.handles.iter().any(|h| !a.avail.get_available(h.idx()));
+    (a.handles.len() << 1) | (any_false as usize)
+}
